@@ -33,3 +33,20 @@ B("ddm_float_state", DDM, "        self._error_rate = 0\n        self._error_std
   "        self._error_rate = 0.0\n        self._error_std = 0.0\n        self._error_rate_min = float(\"inf\")\n        self._error_std_min = float(\"inf\")\n        self._initialize_retraining_recs()\n\n    def reset", ["C05", "C02", "C16"])
 B("hdm_hellinger_vectorised", HD, "        f_distance = 0\n        r_length = sum(reference_density)\n        t_length = sum(test_density)\n        for b in range(self._bins):\n            f_distance += (\n                np.sqrt(test_density[b] / t_length)\n                - np.sqrt(reference_density[b] / r_length)\n            ) ** 2\n\n        return np.sqrt(f_distance)",
   "        r = np.asarray(reference_density, dtype=float)\n        t = np.asarray(test_density, dtype=float)\n        return np.sqrt(np.sum((np.sqrt(t / t.sum()) - np.sqrt(r / r.sum())) ** 2))", ["C07", "C18", "C02"])
+
+NN = "menelaus/partitioners/NNSpacePartitioner.py"
+INJ = "menelaus/injection/injector.py"
+MD3 = "menelaus/concept_drift/md3.py"
+PC = "menelaus/data_drift/pca_cd.py"
+EL = "menelaus/ensemble/election.py"
+
+# written after the seeded rounds 4-6 widened the workloads (dtypes, labels, containers, numpy-typed parameters)
+B("nnsp_ball_tree", NN, 'algorithm="kd_tree"', 'algorithm="ball_tree"', ["C10", "C18", "C02"])
+B("injector_columns_by_list_index", INJ, "column_idxs = tuple([data.columns.get_loc(c) for c in columns])",
+  "column_idxs = tuple([list(data.columns).index(c) for c in columns])", ["C20", "C15"])
+B("md3_reindex_labelled_sample", MD3, "labeled_sample = labeled_sample[reference_columns]",
+  "labeled_sample = labeled_sample.reindex(columns=reference_columns)", ["C19"])
+B("pcacd_flag_as_bool", PC, "        self.online_scaling = online_scaling\n", "        self.online_scaling = bool(online_scaling)\n", ["C11"])
+B("kdq_build_midpoint_from_max", KP, "        midpoint_at_axis = min_value_at_axis + (np.ptp(data[:, axis]) / 2)\n",
+  "        midpoint_at_axis = min_value_at_axis + ((np.max(data[:, axis]) - min_value_at_axis) / 2)\n", ["C08", "C09"])
+B("majority_counts_with_sum", EL, "        num_drift = len(alarms)\n", "        num_drift = sum(1 for _ in alarms)\n", ["C13", "C12"])
